@@ -51,7 +51,7 @@ Inductive effect :=
 | EDispatch (m bp path user : pystr).    (* do_<m>(environ, bp, path, user) was called *)
 
 Inductive final :=
-| FBadRequest          (* 400: X-Script-Name without leading slash *)
+| FBadRequest          (* 400: X-Script-Name without leading slash; negative CONTENT_LENGTH (internal server) *)
 | FPrefixError         (* 500: SCRIPT_NAME without leading slash *)
 | FMethodNotAllowed    (* 405 *)
 | FRedirect (loc : pystr)  (* 301 *)
@@ -159,7 +159,8 @@ Section Gate.
       match e_clen env with
       | CLInvalid => {| r_effects := eff_home; r_final := FError |}
       | CLNum z =>
-          if negb (Z.eqb z 0) && Z.ltb 0 (c_max_len cfg) && Z.ltb (c_max_len cfg) z
+          if Z.ltb z 0 then {| r_effects := eff_home; r_final := FBadRequest |}
+          else if negb (Z.eqb z 0) && Z.ltb 0 (c_max_len cfg) && Z.ltb (c_max_len cfg) z
           then {| r_effects := eff_home; r_final := FTooLarge |}
           else dispatch
       end
@@ -226,7 +227,7 @@ Definition is_early (f : final) : bool :=
 (* the content-length test of the internal server lets the request through *)
 Definition clen_ok (cfg : config) (env : environ) : Prop :=
   c_internal cfg = false \/
-  exists z, e_clen env = CLNum z /\
+  exists z, e_clen env = CLNum z /\ Z.ltb z 0 = false /\
             (negb (Z.eqb z 0) && Z.ltb 0 (c_max_len cfg) && Z.ltb (c_max_len cfg) z) = false.
 
 Definition set_identity_headers (env : environ) (ru xru : pystr) : environ :=
